@@ -210,8 +210,30 @@ func checkRelease(cc connCase) (bool, error) {
 			return nt, &culprit{past[i], e}
 		}
 	}
+	// not a single case: an earlier client of the same service may have left state behind that
+	// makes the later connections leak or spin (history): try the pairs (earlier case, this case)
+	if cc.Poison == nil {
+		tried := 0
+		for i := len(past) - 1; i >= 0 && tried < 12; i-- {
+			if past[i].Service != cc.Service || past[i].SSH != nil || past[i].UDP != cc.UDP {
+				continue
+			}
+			tried++
+			pair := cc
+			first := past[i]
+			first.Poison = nil
+			first.Kind = "poison"
+			pair.Poison = &first
+			pair.Kind = "after-odd-client"
+			dropChild()
+			if _, e := releaseOnce(pair); verdict(e) {
+				dropChild()
+				return nt, &culprit{pair, e}
+			}
+		}
+	}
 	dropChild()
-	vlib.Open(prop).Flaky("not attributable to a single case on a fresh process: " + head(err.Error(), 400))
+	vlib.Open(prop).Flaky("not attributable to a single case (or a pair of cases) on a fresh process: " + head(err.Error(), 400))
 	return nt, nil
 }
 
